@@ -32,6 +32,15 @@ def main():
     src = os.environ.get('SEED_DIR') or '/tmp/seed-%s' % prop
     patch = os.path.join(src, 'change%s.diff' % n)
     demo = os.path.join(src, 'demo%s.py' % n)
+    # demonstrations written against a scratch worktree assert they run from it: make that "the directory I am run from"
+    import re
+    with open(demo) as f:
+        text = f.read()
+    text2 = re.sub(r"'/tmp/w\d-C\d\d/?'", 'os.getcwd()', text)
+    if text2 != text:
+        demo = os.path.join(tempfile.mkdtemp(prefix='cardutil-seed-demo-'), 'demo.py')
+        with open(demo, 'w') as f:
+            f.write(text2)
     env = dict(os.environ, PYTHONDONTWRITEBYTECODE='1')
     ran = []
     clean, changed = scratch(), scratch()
